@@ -149,7 +149,14 @@ LIST_BUILDERS = ["getInteractionListForIndex", "getInteractionListForBlock", "ge
 SHARED = ["Limits", "periodicShift", "isTooClose", "boxLimite", "getChildIndexFromParent", "inLevel", "std::abs", "IsPeriodic", "idxChild", "Pos[idxDim]"]
 
 
+XFIELDS = []
+
+
 def sibling_builders(facts, res):
+    c = facts.cls("TbfXtoXInteraction")
+    if c is None or not c.get("fields"):
+        raise AnalysisBroken("TbfXtoXInteraction: fields not found")
+    XFIELDS[:] = [f["name"] for f in c["fields"]]
     """C11.3: the two ordering classes build their lists the same way (apart from the index conversions
     hidden in getIndexFromBoxPos / getBoxPosFromIndex), and in each class the per-cell and per-group
     builders use the same neighbourhood limits, periodic wrap shifts, too-close test and child loop"""
@@ -173,7 +180,15 @@ def sibling_builders(facts, res):
             # after replacing the cell under consideration by a common token
             def norm(d, per_block):
                 out = {}
+                ren = {}
+
+                def renumber(m):
+                    return ren.setdefault(m.group(0), "%s:w%d" % (m.group(1), len(ren) + 1))
                 for k, v in d.items():
+                    if k.split(" ")[0] not in ("cond", "loop", "assign"):
+                        continue
+                    # locals are numbered per function; the two builders declare different sets, so number again by first use among the compared atoms
+                    k = re.sub(r"(local|mutable):[uv]\d+", renumber, k)
                     k2 = re.sub(r"param0\.get(Cell|Leaf)SpacialIndex\(loopvar\)", "CELL", k) if per_block else k.replace("param0", "CELL")
                     k2 = re.sub(r"param1", "LEVEL", k2) if per_block else k2.replace("param1", "LEVEL")
                     out[k2] = v
@@ -187,7 +202,7 @@ def sibling_builders(facts, res):
                 res.violation(R + ".cell-vs-group", tbf.rel(facts.path_of(fb)), fb["qname"], ("missing:" + k)[:110], fb["l"][1],
                               "the per-cell builder %s has `%s` but the per-group builder does not: the two would list different cells" % (x, k[:160]))
             for k in sorted(B3 - A3):
-                if k.startswith("assign var:interaction.") or "getNbCells" in k or "getNbLeaves" in k or "testSelfInclusion" in k or "getElementFromSpacialIndex" in k or "getStartingSpacialIndex" in k or "getEndingSpacialIndex" in k:
+                if re.match(r"^assign local:w\d+\.(%s) " % "|".join(XFIELDS), k) or "getNbCells" in k or "getNbLeaves" in k or "testSelfInclusion" in k or "getElementFromSpacialIndex" in k or "getStartingSpacialIndex" in k or "getEndingSpacialIndex" in k:
                     continue   # iteration over the group's cells and in/out-of-group classification exist only in the per-group builder
                 res.violation(R + ".cell-vs-group", tbf.rel(facts.path_of(B2[k])), fb["qname"], ("extra:" + k)[:110], B2[k]["l"][1],
                               "the per-group builder %s has `%s` which the per-cell builder %s does not" % (y, k[:160], x))
